@@ -321,6 +321,54 @@ fn main() {
         found_items.extend(seen.into_iter().map(|s| format!("{}: {}", path, s)));
     }
 
+    // tiling guard: the listed slice ranges, in order, and the explicitly listed other statements cover every top-level statement of the function
+    if let Some(tilings) = spec["tiling"].as_array() {
+        for t in tilings {
+            let path = t["path"].as_str().unwrap_or_else(|| lost("tiling.path"));
+            let fname = t["fn"].as_str().unwrap_or_else(|| lost("tiling.fn"));
+            let full = format!("{}/{}", repo, path);
+            let src = std::fs::read_to_string(&full).unwrap_or_else(|e| lost(&format!("{full}: {e}")));
+            let file = syn::parse_file(&src).unwrap_or_else(|e| lost(&format!("{full}: parse error {e}")));
+            let mut body: Option<syn::Block> = None;
+            for item in file.items.iter() {
+                match item {
+                    syn::Item::Fn(f) if f.sig.ident == fname => body = Some((*f.block).clone()),
+                    syn::Item::Impl(im) => {
+                        let ty = type_name(&im.self_ty);
+                        let ty_key = ty.split('<').next().unwrap_or(&ty).to_string();
+                        for it in im.items.iter() {
+                            if let syn::ImplItem::Fn(m) = it {
+                                if format!("{}::{}", ty_key, m.sig.ident) == fname { body = Some(m.block.clone()); }
+                            }
+                        }
+                    }
+                    _ => {}
+                }
+            }
+            let body = body.unwrap_or_else(|| lost(&format!("tiling: function {} not found in {}", fname, path)));
+            let parts: Vec<(String, String, String)> = t["parts"].as_array().map(|a| a.iter().map(|p| (norm(p["from"].as_str().unwrap_or("")), norm(p["to"].as_str().unwrap_or("")), p["unit"].as_str().unwrap_or("").to_string())).collect()).unwrap_or_default();
+            let other: Vec<String> = t["other"].as_array().map(|a| a.iter().filter_map(|v| v.as_str().map(norm)).collect()).unwrap_or_default();
+            let mut next_part = 0usize;
+            let mut i = 0usize;
+            while i < body.stmts.len() {
+                let txt = tokens_norm(&body.stmts[i]);
+                if next_part < parts.len() && txt.starts_with(&parts[next_part].0) {
+                    // skip to the end statement of this slice
+                    let mut j = i;
+                    while j < body.stmts.len() && !tokens_norm(&body.stmts[j]).starts_with(&parts[next_part].1) { j += 1; }
+                    if j >= body.stmts.len() { lost(&format!("tiling of {}: end of the slice of {} not found", fname, parts[next_part].2)); }
+                    i = j + 1;
+                    next_part += 1;
+                } else if other.iter().any(|o| txt.starts_with(o)) {
+                    i += 1;
+                } else {
+                    lost(&format!("tiling of {}: statement `{}` is covered by no slice and not listed", fname, &txt[..txt.len().min(70)]));
+                }
+            }
+            if next_part < parts.len() { lost(&format!("tiling of {}: the slice of {} was not reached in order", fname, parts[next_part].2)); }
+        }
+    }
+
     // statement slices (DESIGN §3.1 expression slicing): a contiguous run of statements of a large function, lifted verbatim into a
     // function of its free variables (parameter list supplied by the unit); everything around it is dropped and said so
     if let Some(slices) = spec["slices"].as_array() {
